@@ -108,6 +108,51 @@ def post_declared_vs_limit(fl: int, M: int, L: int, pending: bool) -> str:
     return verdict(_post(fl, M, L, pending))
 
 
+NONASCII = ('4' + '\xe9' * 10).encode('utf-8')       # 11 characters, 21 bytes
+
+
+def _post_nonascii(fl, M, pending):
+    """The limit counts BYTES of the body: a body of 21 bytes / 11 characters against every limit M."""
+    sut = mk(fl, async_handlers=False, max_http_buffer_size=M)
+    try:
+        sut.open('polling')
+        sut.settle()
+        sid = sut.sids()[0]
+        if pending:
+            sut.get(sid)
+            sut.settle()
+        n0 = len(sut.events)
+        del sut.reads[:]
+        r = sut.post(sid, NONASCII)
+        sut.settle()
+        msgs = [a for k, s_, a in sut.events[n0:] if k == 'message']
+        disc = [a for k, s_, a in sut.events[n0:] if k == 'disconnect']
+        st = dict(flavour=sut.flavour, pending=bool(pending), body='non-ascii')
+        L = len(NONASCII)
+        if L > M:
+            if msgs:
+                return fail(PROP, 'OVERSIZE-REACHES-APP', 'body of %d bytes (11 characters) > limit %d reached the handler: %r' % (L, M, msgs), **st)
+            if fl == 0 and sut.reads:
+                return fail(PROP, 'OVERSIZE-READ', 'body of %d bytes > limit %d was read: %r' % (L, M, sut.reads), **st)
+            if len(disc) != 1:
+                return fail(PROP, 'OVERSIZE-ENDS-SESSION', '%d disconnect events' % len(disc), **st)
+        else:
+            if msgs != ['\xe9' * 10] or disc:
+                return fail(PROP, 'LIMIT-BODY-REFUSED', 'body of %d bytes <= limit %d: events %r %r' % (L, M, msgs, disc), **st)
+        return ''
+    finally:
+        sut.close()
+
+
+@cond(quick=dict(MAXM=30, timeout=120, parts=dict(FL=[0, 1])), thorough=dict(MAXM=40, timeout=300, parts=dict(FL=[0, 1])))
+def post_nonascii_vs_limit(fl: int, M: int, pending: bool) -> str:
+    """
+    pre: fl == P.FL and 1 <= M <= P.MAXM
+    post: _ == ''
+    """
+    return verdict(_post_nonascii(fl, M, pending))
+
+
 FRAMES = ('4', '4a', '4' + 'x' * 9, '4' + 'y' * 16, '4' + 'z' * 63)
 BFRAMES = (b'\x01', b'ab', b'\x00' * 10, b'\xff' * 17)
 
